@@ -508,7 +508,7 @@ func main() {
 			return 2000
 		},
 		Fixed: [][]string{
-			// the Lean negation witness (Props/C39.tie_choice_seed_only_false): six equal stakes, limit 3
+			// six equal stakes, limit 3 (Props/C39.tie_range_at_index_0; before /repo commit 51a7e0c the smallest id was always kept)
 			fixedCase(3, 0.35, false, []int64{0, 1, 2, 3, 4, 5, 6, 7, 8, 9, 10, 11}, eq6),
 			// same with a higher-staked candidate in front: the tie range does not start at 0
 			fixedCase(3, 0.35, false, []int64{0, 1, 2, 3, 4, 5}, append([]cand{{9, 20, false}}, eq6...)),
